@@ -58,6 +58,12 @@ class RelayWorld(object):
     self.accept_log = []       # per event: (dest, metric, dp, outcome)
     self.stopping = False
     self.proto_kind = self.settings.DESTINATION_PROTOCOL
+    # limits derived from the configuration as the documentation states them, not read
+    # back from the module under test
+    cs = w.cfg['settings']
+    mq = cs.get('MAX_QUEUE_SIZE', 10000)
+    self.low_wm = mq * cs.get('QUEUE_LOW_WATERMARK_PCT', 0.8)
+    self.hard_max = mq * cs.get('MAX_QUEUE_SIZE_HARD_PCT', 1.25) if cs.get('USE_FLOW_CONTROL', True) else mq
     self.receivers = []
     self.errors_logged = []
     self.member_ops = []       # history of router add/remove: ('add'|'remove', dest)
@@ -125,7 +131,7 @@ class RelayWorld(object):
     elif is_self:
       # re-injected self metric: ordinary admission, but may be refused like any datapoint
       pass
-    hard = self.cl.SEND_QUEUE_HARD_MAX
+    hard = self.hard_max
     mx = self.settings.MAX_QUEUE_SIZE
     f = d.factory
     if not hi_priority:
@@ -156,7 +162,7 @@ class RelayWorld(object):
     self.check_queue_bound(d)
 
   def check_queue_bound(self, d):
-    hard = self.cl.SEND_QUEUE_HARD_MAX
+    hard = self.hard_max
     f = d.factory
     nself = sum(1 for (m, dp) in f.queue if str(m).startswith('carbon.self.'))
     size = f.queueSize - nself
@@ -667,7 +673,7 @@ class RelayWorld(object):
     st = self.w.state
     if not self.settings.USE_FLOW_CONTROL or self.stopping:
       return
-    low = self.cl.SEND_QUEUE_LOW_WATERMARK
+    low = self.low_wm
     if self.router.countDestinations() == 0:
       self.ctx.probe('no_usable_destination_at_end')
       return
